@@ -92,6 +92,7 @@ def tree? (toks : List String) : Option (FS Name) :=
 def resTok : Res → String
   | .ok => "ok" | .notExist => "notexist" | .exist => "exist" | .noSpace => "nospace"
   | .mdMissing => "mdmissing" | .ioExist => "io-exist" | .ioNotExist => "io-notexist" | .panic => "panic"
+  | .invalidKey => "invalidkey"
 
 def harnessMds : List MdId := [⟨0, false⟩, ⟨0, true⟩, ⟨1, true⟩]
 
@@ -164,9 +165,17 @@ def iblobs (toks : List String) : List IBlob := toks.filterMap iblob?
 
 def ifind (bs : List IBlob) (k : String) : Option IBlob := bs.find? (·.key = k)
 
-/-- every blob holds at most as many bytes as were reserved for it (the documented contract of
-Create's size argument is weaker; outside it NewStore may legitimately evict or refuse) -/
-def honest (bs : List IBlob) : Bool := bs.all fun b => (b.data.length - 1) / 2 ≤ b.size
+/-- the precondition of the recovery theorems, computed from what the implementation left / reported:
+what `NewStore` will count (the bytes of every complete blob, the reservation of every incomplete one when
+incomplete blobs are restored) fits the capacity, so the start-up eviction has nothing to do. Above the
+capacity `NewStore` may legitimately evict or refuse. -/
+def fitsBlobs (cfg : Cfg) (bs : List IBlob) : Bool :=
+  (bs.map fun b => if b.complete then (b.data.length - 1) / 2 else if cfg.reboot then b.size else 0).sum ≤ cfg.capacity
+
+/-- the same on a tree (the crash tree the implementation's recorded calls produced) -/
+def fitsTree (cfg : Cfg) (fs : FS Name) : Bool :=
+  let fs0 := if cfg.reboot then fs else applyAll fs (rmPredicted cfg {} fs)
+  ((rebootGood cfg fs0 (rebootEntries cfg fs0)).map (·.size)).sum ≤ cfg.capacity
 
 def splitBar (toks : List String) : List (List String) :=
   toks.foldr (fun t acc => if t = "|" then [] :: acc else
@@ -248,7 +257,11 @@ def monitors (cfg : Cfg) (pre post : List IBlob) (sections : List (List String))
     (at_ : String) (opIsMC : String → Bool) : List String :=
   let pf (key detail : String) := s!"side=impl key={key}.{at_} {detail}"
   let recS := sections.getD 0 []
-  let isHonest := honest pre && honest post
+  let isHonest := match recS.head? with
+    | some t => if t.startsWith "fs=" then (match tree? (list? (t.drop 3).toString) with
+        | some fs => fitsTree cfg fs
+        | none => false) else false
+    | none => false
   match recS.drop 1 with            -- recS = fs=… :: (ok …) | err…
   | [] => []
   | "ok" :: recToks =>
@@ -302,7 +315,7 @@ def monitors (cfg : Cfg) (pre post : List IBlob) (sections : List (List String))
     let restart := match sections.getD 3 [] with
       | "ok" :: toks =>
         let r4 := iblobs toks
-        if !honest st2 then [] else
+        if !fitsBlobs cfg st2 then [] else
         st2.flatMap fun a =>
           if !a.complete then [] else
           match ifind r4 a.key with
@@ -310,10 +323,10 @@ def monitors (cfg : Cfg) (pre post : List IBlob) (sections : List (List String))
           | some r => if r.complete && r.data = a.data && r.banned = a.banned && r.mds = a.mds then [] else
               [pf "restart-changed-complete-blob" s!"{a.key} (completed after the recovery) differs after a clean restart"]
       | [] => []
-      | e :: _ => if honest st2 then [pf "restart-failed" s!"clean restart after the recovery: {e}"] else []
+      | e :: _ => if fitsBlobs cfg st2 then [pf "restart-failed" s!"clean restart after the recovery: {e}"] else []
     perKey ++ probes ++ restart
   | "err-nospace" :: _ =>
-    if isHonest then [pf "reopen-failed" "NewStore: no space although no blob exceeds its reservation"] else []
+    if isHonest then [pf "reopen-failed" "NewStore: no space although what is on disk fits the capacity"] else []
   | e :: _ => if e.startsWith "planerr" then [] else [pf "reopen-failed" s!"NewStore fails after the crash: {e}"]
 
 /-! ### the machine -/
